@@ -377,6 +377,10 @@ def coerce(sv, want):
             return SV(T.VAL, T.VStr(sv.t))
         if isinstance(ty, T.Ref):
             return SV(T.VAL, T.VRef(sv.t))
+        if isinstance(ty, (T.Tup, T.Seq, T.Map, T.Rec)):
+            # a container handed over as an opaque value (e.g. the argument tuple of a command): an uninterpreted tag
+            f = z3.Function('val!of_' + ty.name, ty.sort(), z3.IntSort())
+            return SV(T.VAL, T.VOther(f(sv.t)))
         return None
     if isinstance(want, T.Ref) and isinstance(ty, T.Ref):
         return SV(want, sv.t)
